@@ -123,6 +123,25 @@ func NewFieldIndexCache(initCap int, limitToUseSlice int) *FieldIndexCache {
 	}
 }
 
+// Copy returns an independent cache with the same entries.
+func (c *FieldIndexCache) Copy() *FieldIndexCache {
+	cp := &FieldIndexCache{
+		limitToUseSlice: c.limitToUseSlice,
+	}
+	if c.m != nil {
+		cp.m = make(map[parser.QueryExpression]int, len(c.m))
+		for k, v := range c.m {
+			cp.m[k] = v
+		}
+		return cp
+	}
+	cp.exprs = make([]parser.QueryExpression, len(c.exprs), cap(c.exprs))
+	copy(cp.exprs, c.exprs)
+	cp.indices = make([]int, len(c.indices), cap(c.indices))
+	copy(cp.indices, c.indices)
+	return cp
+}
+
 func (c *FieldIndexCache) Get(expr parser.QueryExpression) (int, bool) {
 	if c.m != nil {
 		idx, ok := c.m[expr]
@@ -188,6 +207,12 @@ func (rs *ReferenceScope) CreateScopeForRecordEvaluation(view *View, recordIndex
 	records[0] = NewReferenceRecord(view, recordIndex, view.FieldLen())
 	for i := range rs.Records {
 		records[i+1] = rs.Records[i]
+		// The scopes created here are used by the goroutines that evaluate the records of the view
+		// in parallel. All of them refer to the same outer records, so each scope gets its own
+		// field index caches instead of sharing the unsynchronized caches of the outer scope.
+		if rs.Records[i].cache != nil {
+			records[i+1].cache = rs.Records[i].cache.Copy()
+		}
 	}
 	return rs.createScope(records)
 }
